@@ -138,8 +138,14 @@ def check(res):
     end_of_run = res["script"]["end"]
     for sv, r in regs.items():
         for em in r.emissions:
-            if em["last"]:
+            # RFC 7641 4.2 / 3.2: a response without Observe, or not 2.xx, ends the registration (and is all a
+            # plain request gets)
+            if em["obs"] is None or not (64 <= em["code"] < 96):
                 r.end_at(em["tick"], "final response", em["seq"])
+                em["final"] = True
+            if em["obs"] is not None and not (64 <= em["code"] < 96):
+                out.append(("C08:observe-option-on-error",
+                            f"registration {sv}: response {em['code']} carries Observe={em['obs']}"))
         for t, ev, q in ins:
             if q < r.seq:
                 continue
@@ -191,7 +197,7 @@ def check(res):
                     out.append(("C08:notification-after-end",
                                 f"{who} ended at tick {te} ({cause}) but put a response on its pipe at tick {em['tick']}"))
                 elif em["dg"] is not None and r.after_end(em["dg"]["tick"], em["dg"]["seq"]) and \
-                        not (em["last"] and em["seq"] == qe):
+                        not (em.get("final") and em["seq"] == qe):
                     out.append(("C08:queued-notification-sent-after-end",
                                 f"{who} ended at tick {te} ({cause}); the notification Observe={em['obs']} "
                                 f"mid={em['dg']['mid']} handed to the message layer at tick {em['tick']} was first "
@@ -243,4 +249,4 @@ def check(res):
 
 
 def _finished_plain(r):
-    return any(em["last"] for em in r.emissions)
+    return any(em.get("final") for em in r.emissions)
